@@ -131,8 +131,9 @@ enum Op {
 	Ca { scid: u64, a: usize, b: usize, lookup: bool, flaw: u8 }, // flaw 0 ok, 1 bad node sig, 2 bad bitcoin sig, 3 wrong chain, 4 signed by other keys
 	Cu { scid: u64, dir: u8, d: Dir, flaw: u8, unsigned: bool },  // flaw 0 ok, 1 bad sig, 2 wrong chain, 3 signed by the other end
 	Na { n: usize, ts: u32, rgb: [u8; 3], alias: [u8; 32], flaw: u8, unsigned: bool }, // flaw 0 ok, 1 bad sig
-	FailChan { scid: u64 },
-	FailNode { n: usize },
+	/// via: 0 direct call, 1 NetworkUpdate from a payment failure (permanent), 2 the same, not permanent (no effect)
+	FailChan { scid: u64, via: u8 },
+	FailNode { n: usize, via: u8 },
 	Prune { t: u64 },
 	Rgs(RgsSnap),
 }
@@ -451,18 +452,26 @@ fn deliver(u: &Universe, chan_ends: &HashMap<u64, (usize, usize)>, ops: &[Op], r
 				};
 				(got, Some(want))
 			},
-			Op::FailChan { scid } => {
-				g.channel_failed_permanent(*scid);
-				if r.chans.contains_key(scid) {
+			Op::FailChan { scid, via } => {
+				match *via {
+					0 => g.channel_failed_permanent(*scid),
+					v => g.handle_network_update(&lightning::routing::gossip::NetworkUpdate::ChannelFailure { short_channel_id: *scid, is_permanent: v == 1 }),
+				}
+				rep.count(["g3_channel_failures_direct", "g3_channel_failures_by_network_update", "g3_temporary_failures_by_network_update"][*via as usize]);
+				if *via != 2 && r.chans.contains_key(scid) {
 					r.drop_chan(*scid);
 					r.removed_chans.insert(*scid, u.now);
 				}
 				(true, None)
 			},
-			Op::FailNode { n } => {
-				g.node_failed_permanent(&u.npk(*n));
+			Op::FailNode { n, via } => {
+				match *via {
+					0 => g.node_failed_permanent(&u.npk(*n)),
+					v => g.handle_network_update(&lightning::routing::gossip::NetworkUpdate::NodeFailure { node_id: u.npk(*n), is_permanent: v == 1 }),
+				}
+				rep.count(["g3_node_failures_direct", "g3_node_failures_by_network_update", "g3_temporary_failures_by_network_update"][*via as usize]);
 				let id = u.nid(*n);
-				if r.nodes.contains_key(&id) {
+				if *via != 2 && r.nodes.contains_key(&id) {
 					for s in r.node_chans(&id) {
 						r.drop_chan(s);
 						r.removed_chans.insert(s, u.now);
@@ -824,7 +833,7 @@ fn one_set(args: &Args, si: u64, rng: &mut Rng, rep: &mut Report, orders: u64) {
 				if let Some(f) = follow {
 					if rng.chance(1, 2) {
 						let scid = *rng.pick(&scids);
-						ops.push(Op::FailChan { scid });
+						ops.push(Op::FailChan { scid, via: rng.below(2) as u8 });
 					}
 					ops.push(Op::Rgs(f));
 				}
@@ -845,10 +854,10 @@ fn one_set(args: &Args, si: u64, rng: &mut Rng, rep: &mut Report, orders: u64) {
 				let nn = rng.below(n as u64) as usize;
 				ops.push(Op::Na { n: nn, ts: ts0 + rng.below(40) as u32 * 600, rgb: rng.bytes(), alias: rng.bytes(), flaw: if rng.chance(1, 5) { 1 } else { 0 }, unsigned: rng.chance(1, 3) });
 			},
-			17 => ops.push(Op::FailChan { scid }),
+			17 => ops.push(Op::FailChan { scid, via: rng.below(3) as u8 }),
 			18 => {
 				if rng.chance(1, 3) {
-					ops.push(Op::FailNode { n: rng.below(n as u64) as usize });
+					ops.push(Op::FailNode { n: rng.below(n as u64) as usize, via: rng.below(3) as u8 });
 				}
 			},
 			_ => {
